@@ -172,7 +172,7 @@ def draw_pack_case(rng, alg=None, cls=None, pres=None, algs=PACKERS, nmax=None, 
             case["C"] = C / d
             case["values"] = [x / d for x in v]
             case["dyadic"] = d
-    case["pres"] = pres or (rng.choice(PRESENTATIONS) if alg != "bc" else rng.choice(["list", "array"]))
+    case["pres"] = pres or rng.choice(PRESENTATIONS)
     if case.get("dyadic") and case["pres"] == "array":
         case["pres"] = "list"
     case["pres_seed"] = rng.randrange(1 << 30)
